@@ -359,6 +359,21 @@ def file_items(nmax, full_max=None):
     return out
 
 
+def replay(ctx, data):
+    """Re-run the one history of a recorded violation; True if its signature is not reproduced."""
+    d = data["first"]
+    dag = tuple(tuple(p) for p in d["dag"])
+    if "file_states" in d:
+        assign = tuple(None if x is None else (x + "\n").encode() for x in d["file_states"])
+        acc = _work_files([(dag, assign)])
+    else:
+        acc = _work_graph([dag])
+    hit = [v for v in acc.violations if v[0] == data["signature"]]
+    for sig, det in hit:
+        print("  ", sig, {k: det[k] for k in det if k not in ("dag",)})
+    return not hit
+
+
 def run(ctx):
     N = ctx.q(5, 6)
     M = ctx.q(4, 5)
